@@ -2345,12 +2345,12 @@ class RawAlgorithmsMixIn:
                     rank += 1
             rank_list.append(rank)
 
-        # FIXME: assuming the same rank for all zero'th coefficient
-        # print 'rank = ', rank
-        # print tmp1
-        # print 'tmp1[:,:,:rank,:rank]=',tmp1[:,:,:rank,:rank]
+        # every direction uses the rank of its own zero'th coefficient
         tmp2[...] = 0
-        cls._solve(R_data[:,:,:rank,:rank], cls._transpose(tmp1[:,:,:rank,:rank]), out = tmp2[:,:,:rank,:rank])
+        for p in range(P):
+            rank = rank_list[p]
+            if rank > 0:
+                cls._solve(R_data[:,p:p+1,:rank,:rank], cls._transpose(tmp1[:,p:p+1,:rank,:rank]), out = tmp2[:,p:p+1,:rank,:rank])
         tmp2 = tmp2.transpose((0,1,3,2))
 
         # print 'Rbar_data=',Rbar_data[...]
